@@ -1,6 +1,8 @@
 import MicroHttp.Props.C17
+import MicroHttp.Props.Tables
 #print axioms MicroHttp.C17.routeKey_injective
 #print axioms MicroHttp.C17.dispatch_first_registered
 #print axioms MicroHttp.C17.addRoute_duplicate
 #print axioms MicroHttp.C17.addRoute_fresh
 #print axioms MicroHttp.C17.handle_spec
+#print axioms MicroHttp.Tables.no_shared_state
